@@ -233,3 +233,17 @@ Example C18_round2_examples :
     = Some (Some (ODict [(1, 7)]%N)).
 Proof. exact round2_examples. Qed.
 Print Assumptions C18_round2_examples.
+
+(* None is an ordinary value: local.x = None binds x (getattr, iter, and a proxy on x all see None; the proxy is
+   BOUND and falsy); a LocalStack whose top is None makes stack proxies report unbound (bound_of says so) *)
+Example C18_none_is_a_value :
+  let w := fst (run gen_methods [(0, OpSet 0 1%N none_id); (0, OpPush 0 5%N); (0, OpPush 0 none_id);
+                                 (0, OpMkProxy (PLocal 0 1%N None)); (0, OpMkProxy (PStack 0 false None))]) in
+  snd (step gen_methods w (0, OpGet 0 1%N)) = OVal none_id /\
+  snd (step gen_methods w (0, OpIter 0)) = OItems [(1%N, none_id)] /\
+  snd (step gen_methods w (0, OpProxy 0 PaCurrent)) = OVal none_id /\
+  snd (step gen_methods w (0, OpProxy 0 PaBool)) = OBool false /\
+  snd (step gen_methods w (0, OpTop 0)) = OVal none_id /\
+  snd (step gen_methods w (0, OpProxy 1 PaCurrent)) = ORuntimeError.
+Proof. exact none_value_examples. Qed.
+Print Assumptions C18_none_is_a_value.
